@@ -179,6 +179,8 @@ def check_qasm(ctx: Ctx):
     g2, g3 = gate_part(v2), gate_part(v3)
     ctx.check(g2 == g3, "SB-TWIN", v2, "QASM 2 and 3 build the gate declaration identically", f"{len(g2)} statements", "the gate-body generation of export_v2 and export_v3 differ: the two versions no longer describe the same gate", v2.node)
     for fi in (v2, v3):
+        check_name_injective(ctx, fi)
+    for fi in (v2, v3):
         sc = fi.params[1]
         # formals
         header = [s for s in fi.body if isinstance(s, (ast.AugAssign, ast.Assign)) and "join" in norm(s) and "for g" not in norm(s)]
@@ -261,3 +263,52 @@ def check_qasm(ctx: Ctx):
     ex = repo.func("qcircuit.exporter_qasm.QasmExporter.export")
     txt = norm(ex.node)
     ctx.check("self.version == 3" in txt and "export_v3" in txt and "export_v2" in txt, "DP-TABLE", ex, "version 3 -> export_v3, otherwise export_v2", "", "version dispatch changed", ex.node)
+
+
+_LOSSY = {"sub", "subn", "replace", "translate", "lower", "upper", "casefold", "title", "capitalize", "swapcase", "strip", "lstrip", "rstrip", "removeprefix", "removesuffix", "split", "rsplit", "partition", "rpartition", "expandtabs", "encode"}
+_TRANSPARENT = {"join", "map", "list", "tuple", "str", "iter"}
+
+
+def check_name_injective(ctx: Ctx, fi: FuncInfo):
+    """MP-formals-provenance (injectivity): qubit i of the export is identified by the text printed for it.  The text
+    must be an injective function of the qubit's name: the name itself, or the name with fixed text around it.  A
+    string operation that can map two different names to one text (regex substitution, replace, translate, case
+    folding, stripping, slicing) makes two qubits share one formal parameter."""
+    pm = fi.pm
+    seen = 0
+    for c in q.calls(fi.node):
+        if not (dotted(c.func) or "").endswith("get_key_by_index"):
+            continue
+        seen += 1
+        node, bad, unknown = c, None, None
+        while node in pm:
+            par = pm[node]
+            if isinstance(par, (ast.stmt, ast.Lambda, ast.comprehension)):
+                break
+            if isinstance(par, ast.Call):
+                fn = par.func
+                nm = fn.attr if isinstance(fn, ast.Attribute) else (fn.id if isinstance(fn, ast.Name) else None)
+                is_recv = isinstance(fn, ast.Attribute) and (node is fn or node is fn.value)
+                if nm in _LOSSY and (is_recv or node in par.args):
+                    bad = par
+                    break
+                if nm not in _TRANSPARENT and not (isinstance(fn, ast.Attribute) and fn.attr == "format"):
+                    unknown = par
+                    break
+            elif isinstance(par, ast.Subscript) and node is par.value:
+                bad = par
+                break
+            elif isinstance(par, (ast.ListComp, ast.GeneratorExp, ast.SetComp)):
+                if isinstance(par, ast.SetComp):
+                    bad = par
+                break
+            node = par
+        role = "the printed name of a qubit is an injective function of its name"
+        if bad is not None:
+            ctx.fail("MP-formals-provenance", fi, role, f"`{norm(bad)[:90]}` rewrites the name returned by get_key_by_index with an operation that can map two different names to the same text: two qubits then share one formal parameter / operand name and the export acts on the wrong qubit", bad)
+        elif unknown is not None:
+            ctx.undecided(fi.short, f"MP-formals-provenance [{role}]: the name is passed through `{norm(unknown.func)}`, which the tables do not describe ({fi.loc(unknown)})")
+        else:
+            ctx.ok("MP-formals-provenance", fi, role, "name used as it is", c)
+    if not seen:
+        raise AnchorError(fi.short, "no get_key_by_index call: the naming function of the QASM export was not found")
